@@ -109,7 +109,7 @@ def ma_params(fn: ast.FunctionDef):
     return out
 
 
-def analyse_one(args):
+def _analyse_one_unlimited(args):
     root, name, rel, tier = args
     repo = Repo(root)
     fn = repo.func(rel, name) if repo.has_func(rel, name) else None
@@ -145,6 +145,27 @@ def analyse_one(args):
                 fields.append((fname, -1, None, None))
         res.append((vname, over, "ok", n, fields))
     return name, rel, res
+
+
+def _analyse_one_timeout(args, msg):
+    root, name, rel, tier = args
+    return name, rel, [("defaults", {}, "undecided", msg, None)]
+
+
+def _prefix_one_timeout(args, msg):
+    root, name, rel = args
+    return name, rel, [(0, 0, "undecided", msg)]
+
+
+def analyse_one(args):
+    """per-indicator wall-clock budget: an interpretation that blows up is reported as undecided for that indicator"""
+    from vlib.indic_vals import time_limit, TimeBudget as _U
+    try:
+        with time_limit(240, "indicator interpretation"):
+            return _analyse_one_unlimited(args)
+    except _U as e:
+        return _analyse_one_timeout(args, str(e))
+
 
 
 def growing_normalisers(repo: Repo):
@@ -228,7 +249,7 @@ def check_length_dependent_normaliser(repo: Repo, rep, shaped=None):
     rep.extra["length_dependent_normalisers"] = sorted({c[0] for c in cands})
 
 
-def prefix_one(args):
+def _prefix_one_unlimited(args):
     root, name, rel = args
     repo = Repo(root)
     fn = repo.func(rel, name) if repo.has_func(rel, name) else None
@@ -280,6 +301,17 @@ def prefix_one(args):
         out.append((n1, n2, bad[0] if bad else "ok", bad))
     out.append((0, 0, "shaped", sorted(shaped)))
     return name, rel, out
+
+
+def prefix_one(args):
+    """per-indicator wall-clock budget: an interpretation that blows up is reported as undecided for that indicator"""
+    from vlib.indic_vals import time_limit, TimeBudget as _U
+    try:
+        with time_limit(240, "indicator interpretation"):
+            return _prefix_one_unlimited(args)
+    except _U as e:
+        return _prefix_one_timeout(args, str(e))
+
 
 
 def check_prefix_consistency(repo: Repo, rep, skip=()):
